@@ -18,7 +18,8 @@ RULE = ("cases: float32/float64 inputs with log-uniform magnitudes in [1e-3,1e4]
         "closed-form gradients; every output/gradient finite and within 8*eps32*max(1,|x|max) of the exact value.  "
         "non-trivial: |x|max > 88 (float32 exp overflow) or a logit gap > 28 (probability below 1e-12); distinct by "
         "hash of the case"
-        " Round 4: class counts 127..129, 255..257, 32767..32769, 40000, 65535..65537, 70000 with labels at the top (cross_entropy functional/module, nll of log_softmax); Softmax/LogSoftmax modules used before on an input of another rank, negative dim spellings.")
+        " Round 4: class counts 127..129, 255..257, 32767..32769, 40000, 65535..65537, 70000 with labels at the top (cross_entropy functional/module, nll of log_softmax); Softmax/LogSoftmax modules used before on an input of another rank, negative dim spellings."
+        " Round 7: BCE-with-logits targets that require grad, and targets outside [0, 1].")
 ASSUMPTIONS = ["scipy.special stable implementations are exact to double rounding (spot-checked against mpmath in "
                "the selftest)",
                "single-precision accuracy is measured relative to max(1, |x|max) as the property states"]
